@@ -8,6 +8,8 @@ sys.path.insert(0, os.path.dirname(os.path.abspath(__file__)))
 from common import *          # noqa
 import ref_do
 import ref_gls
+import c04
+import groups
 
 REFS = {"jq255e": ref_do.JQ255E, "jq255s": ref_do.JQ255S, "gls254": ref_gls.GLS254}
 HASHLEN = {"sha224": 28, "sha256": 32, "sha384": 48, "sha512": 64, "sha512224": 28, "sha512256": 32, "sha3224": 28, "sha3256": 32,
@@ -39,6 +41,11 @@ def gen(rng, shard, nshards, n):
         cnt = max(1, n // (6 if name == "gls254" else 1))
         for _ in range(cnt):
             d = rng.randrange(1, r) if rng.randrange(8) else rng.choice([1, 2, r - 1])
+            if rng.randrange(3) == 0:
+                # structured secret scalars (recoding carries, endomorphism-split rounding boundaries): the public key is d*G
+                hd, hc = c04.hostile_scalar(rng, groups.GROUPS[name])
+                if hd % r:
+                    d = hd % r
             sk = d.to_bytes(32, "little")
             pk = enc_pub(D, d)
             if rng.randrange(3) == 0:
